@@ -193,7 +193,57 @@ def bounded(tier, seed, procs):
         if not ok:
             b2.fail(Failure("substitute-kwargs", f"what=history d={d0!r} dict_after={d!r}", dict(kind="subst-hist", d=repr(d0)), expected="caller's dict unchanged; later calls see only the dict",
                             actual=f"dict={d!r} second={outcome.describe(r2)[:80]} fresh={outcome.describe(fresh)[:80]}", functions=["substitute"]))
-    return [b, b2, b_under_wrappers(tier)]
+    return [b, b2, b_under_wrappers(tier), b_variable_subclasses(tier)]
+
+
+_VSUB = []
+
+
+def b_variable_subclasses(tier):
+    """Nodes of Variable subclasses (the library's MultiVectorVariable, a user-declared subclass with an extra field): a replacement given by NAME (string key or keyword)
+    reaches every variable node of that name, whatever its class, exactly as the environment of the evaluator does."""
+    import pymbolic.primitives as p
+    from pymbolic.geometric_algebra.primitives import MultiVectorVariable as MVV
+    from pymbolic.mapper.evaluator import EvaluationMapper
+    from pymbolic.mapper.substitutor import CachedSubstitutionMapper, SubstitutionMapper, make_subst_func, substitute
+    if not _VSUB:
+        @p.expr_dataclass()
+        class TaggedVariable(p.Variable):
+            tag: str = "t"
+        _VSUB.append(TaggedVariable)
+    TV = _VSUB[0]
+    b = BoundedRun("variable-subclasses", rule="expressions over Variable, MultiVectorVariable and a user subclass of Variable (same names) x replacements keyed by name (dict with string keys, "
+                   "keyword form, both mapper classes): evaluate(substitute(e, s), env) equals evaluate(e, env with each replaced name bound to the value of its replacement); "
+                   "plain and memoizing mapper agree", bound="8 expressions x 5 maps x 4 call forms x 2 environments", functions=["substitute", "make_subst_func", "SubstitutionMapper.map_variable"])
+    x, y = trees.X, trees.Y
+    exprs = [p.Sum((MVV("x"), 1)), p.Sum((p.Product((MVV("x"), MVV("x"))), y)), p.Sum((x, MVV("x"))), p.Sum((p.Product((TV("x", "k"), 2)), x)), p.Sum((p.Power(MVV("y"), 2), MVV("x"))),
+             p.Quotient(TV("y"), p.Sum((MVV("x"), 7))), MVV("x"), p.Call(trees.F, (MVV("x"), TV("y", "q"), x))]
+    sigmas = [{"x": p.Sum((y, 1))}, {"x": 3, "y": x}, {"y": p.Product((x, x))}, {"x": MVV("y"), "y": TV("x")}, {"x": y}]
+    envs_ = [dict(x=3, y=5, f=lambda *a: sum(k * (i + 2) for i, k in enumerate(a))), dict(x=Fraction(-1, 2), y=4, f=lambda *a: sum(k * (i + 2) for i, k in enumerate(a)))]
+    for e in exprs:
+        for sg in sigmas:
+            forms = [("dict", lambda: substitute(e, dict(sg))), ("keywords", lambda: substitute(e, **sg)), ("plain-mapper", lambda: substitute(e, dict(sg), mapper_cls=SubstitutionMapper)),
+                     ("direct", lambda: CachedSubstitutionMapper(make_subst_func(dict(sg)))(e))]
+            for fname, fn in forms:
+                r = outcome.run(fn)
+                b.case((repr(e), repr(sg), fname), sample=dict(expr=repr(e)[:80], sigma=repr(sg)[:80], form=fname))
+                why = None
+                if r[0] != "val":
+                    why = outcome.describe(r)[:150]
+                else:
+                    for env in envs_:
+                        env2 = dict(env)
+                        for k, v in sg.items():
+                            env2[k] = EvaluationMapper(env)(v)
+                        want = outcome.run(lambda: EvaluationMapper(env2)(e))
+                        got = outcome.run(lambda: EvaluationMapper(env)(r[1]))
+                        if not outcome.equivalent(got, want, None, typed=False):
+                            why = f"value {outcome.describe(got)[:60]} vs {outcome.describe(want)[:60]} at x={env['x']}"
+                            break
+                if why:
+                    b.fail(Failure("variable-subclasses", f"form={fname} expr={e!r} sigma={sg!r} why={why}"[:400], dict(kind="subst-vsub", expr=repr(e), sigma=repr(sg), form=fname),
+                                   expected="the value in the updated environment", actual=why, functions=["substitute", "make_subst_func"]))
+    return b
 
 
 def ref_falsy(n):
